@@ -65,6 +65,29 @@ def premise_check(b, d, seed, tier):
                         "typing judgement; TYPED means the premise of safety_partial / progress_run_partial is a theorem for that program (static_check_sound)",
         "premise_checked_among_programs_run": sum(1 for i, _ in cands if i in ran and res.get(i, "").startswith("TYPED")),
     }
+    # the premise topo_reachable: TESTED (not proved) along model runs of every program of the fragment
+    typed = [(i, "", t) for i, t in cands if res.get(i, "").startswith("TYPED")]
+    seeds = (0, 1) if tier == "quick" else (0, 1, 2, 3)
+    confs, runs, bad = 0, 0, []
+    for md in ("async", "sync"):
+        for sd in seeds:
+            tr = S.run_tool(b.model, "topo-%s-%d" % (md, sd), typed, timeout=1800)
+            for i, _, t in typed:
+                r = tr.get(i, "MISSING")
+                if r.startswith("TOPO-OK"):
+                    runs += 1
+                    confs += int(r.split(" ")[1])
+                elif not r.startswith("SKIP"):
+                    bad.append((i, t, "%s seed %d: %s" % (md, sd, r)))
+    cov.update({
+        "premise_topo_tested_model_runs": runs,
+        "premise_topo_tested_configurations": confs,
+        "premise_topo_failed": len(bad),
+        "premise_topo_rule": "the executable test topo_code of proofs/TopoCheck.v (unique provider object, unique client object, no dangling client, closed channels unused, "
+                             "rank certificate for acyclicity) evaluated on EVERY configuration of model runs (async and sync, schedules %s) of every program on which the typing premise was checked; "
+                             "a test, not a proof: topo_reachable remains a premise of the theorems" % (list(seeds),),
+    })
+    not_typed = not_typed + [(i, t + "\n// " + why) for i, t, why in bad]
     return cov, not_typed
 
 
